@@ -40,7 +40,8 @@ for which, root, stub in (('url', 'url_parse_ipv6', []), ('url_aggregator', 'agg
     only = 'ONLY_URL=1' if which == 'url' else 'ONLY_AGG=1'
     OBLS.append(Obl('C02.parse_ipv6.safe_any_length.%s' % which, ['C02', 'C10', 'C04'], 'Pinf', 'c10/ipv6_safe_any.c', roots=[root],
                     stub=stub, specs={'agg_update_base_hostname': 'skel/agg_update_base_hostname.recordk.spec', root: 'parse_ipv6.cut.spec'},
-                    unwind=48, defines=['STR_CAP=42', only], includes=INC,
+                    bufn=64, unwind=48, defines=['STR_CAP=42', only], includes=INC,
                     globals=[('omitted', 'const unsigned int'), ('url_default', '@default'), ('url_aggregator_default', '@default')],
                     solver='cadical', timeout=1800, object_bits=10,
-                    note='%s::parse_ipv6: all safety checks for inputs of any length (piece loop and IPv4-in-IPv6 loop cut by their invariants)' % which))
+                    note='%s::parse_ipv6: all safety checks; piece loop and IPv4-in-IPv6 loop cut by their invariants, so the argument does not depend on the input length '
+                         '(view of 0..64 bytes; the function itself refuses every length > 45)' % which))
